@@ -368,8 +368,158 @@ def r3(ctx, R):
     fmt(ctx, Proxy(R))
 
 
+MUTATORS = {"append", "extend", "insert", "remove", "pop", "clear", "sort", "reverse", "update", "add", "discard", "setdefault"}
+
+
+def _inplace_fields(ctx, cone):
+    """fields of entity classes that some method changes in place (self.F.append(..), self.F[k] = v, self.F += ..)"""
+    out = {}
+    for cq in cone:
+        for q in ctx.m.classes[cq].methods.values():
+            g = ctx.m.funcs[q]
+            if not g.params:
+                continue
+            me = g.params[0]
+            for n in ctx.m.walk_own(g.node):
+                fld = None
+                if isinstance(n, ast.Call) and isinstance(n.func, ast.Attribute) and n.func.attr in MUTATORS and isinstance(n.func.value, ast.Attribute) and isinstance(n.func.value.value, ast.Name) and n.func.value.value.id == me:
+                    fld = n.func.value.attr
+                elif isinstance(n, ast.Assign) and isinstance(n.targets[0], ast.Subscript) and isinstance(n.targets[0].value, ast.Attribute) and isinstance(n.targets[0].value.value, ast.Name) and n.targets[0].value.value.id == me:
+                    fld = n.targets[0].value.attr
+                elif isinstance(n, ast.AugAssign) and isinstance(n.target, ast.Attribute) and isinstance(n.target.value, ast.Name) and n.target.value.id == me and isinstance(n.op, ast.Add):
+                    fld = n.target.attr
+                if fld:
+                    out.setdefault(fld, (g, n))
+    return out
+
+
+def _ctor_field_args(ctx, f, call, cq):
+    """{field: argument expression} for a constructor call, through `self.F = param` in the
+    class's __init__ (and the base class's, when the parameter is handed on by name)"""
+    out = {}
+    iq = ctx.m.method(cq, "__init__")
+    if not iq:
+        return out
+    init = ctx.m.funcs[iq]
+    ps = init.params[1:]
+    given = {}
+    for p_, a in zip(ps, call.args):
+        given[p_] = a
+    for kw in call.keywords:
+        if kw.arg:
+            given[kw.arg] = kw.value
+
+    def stores(fn, pmap, depth=0):
+        me = fn.params[0]
+        for n in ctx.m.walk_own(fn.node):
+            if isinstance(n, (ast.Assign, ast.AnnAssign)) and isinstance(n.value, ast.Name) and n.value.id in pmap:
+                for t in (n.targets if isinstance(n, ast.Assign) else [n.target]):
+                    if isinstance(t, ast.Attribute) and isinstance(t.value, ast.Name) and t.value.id == me:
+                        out[t.attr] = pmap[n.value.id]
+            if isinstance(n, ast.Call) and isinstance(n.func, ast.Attribute) and n.func.attr == "__init__" and depth < 2:
+                for t in ctx.r.resolve_call(fn, n)[1]:
+                    h = ctx.m.funcs[t]
+                    sub = {}
+                    for p_, a in zip(h.params[1:], n.args):
+                        if isinstance(a, ast.Name) and a.id in pmap:
+                            sub[p_] = pmap[a.id]
+                    for kw in n.keywords:
+                        if kw.arg and isinstance(kw.value, ast.Name) and kw.value.id in pmap:
+                            sub[kw.arg] = pmap[kw.value.id]
+                    if sub:
+                        stores(h, sub, depth + 1)
+
+    stores(init, given)
+    return out
+
+
+def r5(ctx, R):
+    R.rule("C11.R5", "every entity owns its attribute containers: a list/dict that some entity method changes in place is created anew for each entity built in a loop, not shared by all entities of one statement", floor=2, confirmed=4)
+    from .shared import reaching_def_nodes
+
+    fobj = ctx.m.cname.get("FortranObj")
+    cone = ctx.m.cone(fobj)
+    mut = _inplace_fields(ctx, cone)
+    n_inst = 0
+    for f in ctx.m.funcs.values():
+        if not f.rel.startswith("fortls/parsers/") or f.rel.endswith("debug.py"):
+            continue
+        for lp in (n for n in ctx.m.walk_own(f.node) if isinstance(n, (ast.For, ast.While))):
+            inside = {id(x) for b in lp.body for x in ast.walk(b)}
+            for c in calls_in(lp):
+                if ctx.m.enclosing_func(c) is not f or not isinstance(c.func, ast.Name):
+                    continue
+                cq = ctx.m.resolve_class_name(f.rel, c.func.id)
+                if cq is None or cq not in cone:
+                    continue
+                # innermost loop only
+                p_ = ctx.m.parent.get(c)
+                inner = None
+                while p_ is not None and inner is None:
+                    if isinstance(p_, (ast.For, ast.While)):
+                        inner = p_
+                    p_ = ctx.m.parent.get(p_)
+                if inner is not lp:
+                    continue
+                fa = _ctor_field_args(ctx, f, c, cq)
+
+                def shared(e, at, depth=0, seen=None):
+                    """is the object denoted by e the same one in every iteration?"""
+                    seen = seen or set()
+                    if isinstance(e, ast.Constant) or depth > 5:
+                        return False
+                    if not isinstance(e, ast.Name):
+                        return False  # a call, display, slice, comprehension: a new object each time
+                    if e.id in f.params:
+                        return True
+                    ds = reaching_def_nodes(ctx, f, at, e.id)
+                    res = False
+                    for d in ds:
+                        if d == "param":
+                            res = True
+                            continue
+                        if id(d) in seen:
+                            continue
+                        seen.add(id(d))
+                        val = None
+                        vals = []
+                        if isinstance(d, ast.Assign):
+                            tg = d.targets[0]
+                            if isinstance(tg, (ast.Tuple, ast.List)):
+                                alts = [d.value.body, d.value.orelse] if isinstance(d.value, ast.IfExp) else [d.value]
+                                for alt in alts:
+                                    if isinstance(alt, (ast.Tuple, ast.List)) and len(tg.elts) == len(alt.elts):
+                                        for t_, v_ in zip(tg.elts, alt.elts):
+                                            if isinstance(t_, ast.Name) and t_.id == e.id:
+                                                vals.append(v_)
+                            elif isinstance(tg, ast.Name):
+                                vals = [d.value.body, d.value.orelse] if isinstance(d.value, ast.IfExp) else [d.value]
+                        if id(d) not in inside:
+                            # bound before the loop: one object for all iterations, unless it is a constant
+                            if not (isinstance(getattr(d, "value", None), ast.Constant)):
+                                res = True
+                            continue
+                        if any(shared(v_, d, depth + 1, seen) for v_ in vals):
+                            res = True
+                    return res
+
+                for fld, arg in sorted(fa.items()):
+                    if fld not in mut:
+                        continue
+                    n_inst += 1
+                    k = f"{ctx.m.classes[cq].name}.{fld} <- {unparse(arg)[:30]} in {key(f, ctx.m.enclosing_stmt(c))[:50]}"
+                    if shared(arg, ctx.m.enclosing_stmt(c)):
+                        g, site = mut[fld]
+                        R.violation("C11.R5", f.short, k, loc(f, c), f"every {ctx.m.classes[cq].name} built by this loop receives the same `{unparse(arg)}` object as its `{fld}`, and {g.short} changes `{fld}` in place ({unparse(site)[:50]}): an attribute added to one entity (`external :: f` after `real :: f, g`) shows up in the hover of all entities declared on that line")
+                    else:
+                        R.ok("C11.R5", f.short, k, loc(f, c), "a new container per entity")
+    if n_inst == 0:
+        R.undecided("C11.R5", "parser", "entities built in loops", "fortls:0", "no constructor call in a loop passes a container that is changed in place")
+
+
 def run(ctx, R):
     r1(ctx, R)
     r2(ctx, R)
     r3(ctx, R)
     r4(ctx, R)
+    r5(ctx, R)
